@@ -45,6 +45,8 @@ def rule_dict(r, idx):
     # (which rule of the collection an object is, is carried by a custom attribute - these take no part in the equality
     #  of rules, so that two rules drawn alike ARE equal, as two copies of one file are)
     d = {"title": f"T{r['title']}", "description": "verif", "verif_idx": idx, "logsource": ls, "detection": det}
+    # (every rule carries the same ill-formed tags - material for the tag validators, which must name each rule itself)
+    d["tags"] = ["cve.2024-0002", "stp.1k", "car.2016", "detection.nope", "attack.t1059", f"cve.{r['dir']}"]
     if r["uid"]:
         d["id"] = uuid_of(r["uid"])
     return d
@@ -90,7 +92,9 @@ def run_once(case, perm, vorder):
         issues = sv.validate_rules(iter(rules))
         # every built-in validator over the same objects: they must not change the rules either, and what they report
         # must not depend on the order (their issues are compared between the runs, not with an expected set)
-        allv = SigmaValidator(list(reversed(list(VALIDATORS.values()))) if vorder else list(VALIDATORS.values())).validate_rules(iter(rules))
+        # (not the two that compare tags with MITRE data: they fetch it over the network, which this sandbox has not)
+        offline = [v for n, v in VALIDATORS.items() if n not in ("attacktag", "d3_fendtag")]
+        allv = SigmaValidator(list(reversed(offline)) if vorder else offline).validate_rules(iter(rules))
         out["allsig"] = sorted(
             cps(type(i).__name__ + ":" + ",".join(sorted("R" + str(r.custom_attributes["verif_idx"]) for r in i.rules)) + ":"
                 + ";".join(sorted(f"{k}={v}" for k, v in vars(i).items() if k != "rules")))
